@@ -55,13 +55,19 @@ Theorem c13_no_match_sends_nothing : forall c q rnd ref par o,
 Proof. exact login_no_match_sends_nothing. Qed.
 Print Assumptions c13_no_match_sends_nothing.
 
-Theorem c13_matched_path_is_longest_prefix : forall paths req best,
-  let m := matching_path_from paths req best in
-  (m = best \/ (In m paths /\ m <> [] /\ has_prefix req m = true)) /\
+Theorem c13_matched_path_is_longest_prefix : forall seg paths req best,
+  let m := matching_path_from seg paths req best in
+  (m = best \/ (In m paths /\ m <> [] /\ path_prefix seg req m = true)) /\
   (length best <= length m)%nat /\
-  (forall p, In p paths -> p <> [] -> has_prefix req p = true -> (length p <= length m)%nat).
+  (forall p, In p paths -> p <> [] -> path_prefix seg req p = true -> (length p <= length m)%nat).
 Proof. exact matching_path_from_spec. Qed.
 Print Assumptions c13_matched_path_is_longest_prefix.
+
+(** on the current code a path prefix matches on a segment boundary: the request path equals it or continues with '/' *)
+Theorem c13_prefix_on_segment_boundary : forall req p,
+  path_prefix true req p = true <-> req = p \/ exists r, req = p ++ 47 :: r.
+Proof. exact path_prefix_seg_spec. Qed.
+Print Assumptions c13_prefix_on_segment_boundary.
 
 Theorem c13_post_logout_uri_configured : forall c q rnd rt o,
   In o (logout_results c q rnd rt) -> go_ok o = true ->
